@@ -46,7 +46,8 @@ enum { CL_MANAGED, CL_ROOT, CL_RAW, CL_UNREG };
 struct Node { var f[3]; int64_t canary; int64_t oid; };
 #define CANARY 0x5AFEC0DE5AFEC0DELL
 static void Node_Del(var self);
-static var Node_T = Cello(Node, Instance(New, NULL, Node_Del));
+static void Node_Assign(var self, var obj);
+static var Node_T = Cello(Node, Instance(New, NULL, Node_Del), Instance(Assign, Node_Assign));
 
 #define MAXOBJ   (1 << 18)
 #define MAXCONT  256
@@ -347,6 +348,64 @@ static void kill_obj(int oid) {
   for (int i = 0; i < g_nobj; i++) if (O[i].owner == oid && O[i].alive) kill_obj(i);
 }
 
+/* Node's own Assign: a plain field copy, or (deep copies) a copy that allocates a fresh managed Node for every child Node -
+ * several collection points while the object being filled in is referenced only by the copy() in progress */
+static int g_deep_copy;
+static int new_obj(var p, int kind, int cls);
+static int obj_traversed(const Obj* o);
+static __attribute__((noinline)) var deep_kid(int so) {
+  struct Node* sk = O[so].ptr;
+  struct Node* k = new(Node_T);
+  int oid = new_obj(k, HK_NODE, CL_MANAGED);
+  k->canary = CANARY; k->oid = oid;
+  for (int i = 0; i < 3; i++) { k->f[i] = sk->f[i]; O[oid].e[i] = O[so].e[i]; }
+  stat_add("heap.deep_copy_children", 1);
+  return k;
+}
+static int g_deep_kid[3];
+static void Node_Assign(var self, var obj) {
+  struct Node* d = self; struct Node* s = obj;
+  memcpy(d, s, sizeof *d);
+  g_deep_kid[0] = g_deep_kid[1] = g_deep_kid[2] = -1;
+  if (!g_deep_copy) return;
+  int src = (int)s->oid;
+  for (int k = 0; k < 3; k++) {
+    int so = O[src].e[k];
+    if (so < 0 || O[so].kind != HK_NODE || !O[so].alive || !obj_traversed(&O[so])) continue;
+    d->f[k] = NULL;
+    d->f[k] = deep_kid(so);
+    g_deep_kid[k] = (int)((struct Node*)d->f[k])->oid;
+    sim_scrub_stack();
+  }
+}
+
+#ifndef CELLO_NGC
+void Cello_Verif_GC_Info(var self, size_t* nslots, size_t* nitems, size_t* mitems, uintptr_t* minptr, uintptr_t* maxptr, bool* running, size_t* freenum);
+#endif
+static void do_burst(int n);
+/* fault placement: allocate until the collector's next collection falls on the (d+1)-th registration from now, i.e. inside
+ * the operation that follows (its 1st, 2nd, ... allocation) */
+static void gc_prime(int d) {
+#ifndef CELLO_NGC
+  if (g_stopped) return;
+  int collected = 0;
+  for (int guard = 0; guard < 200000; guard++) {
+    size_t nitems = 0, mitems = 0;
+    Cello_Verif_GC_Info(current(GC), NULL, &nitems, &mitems, NULL, NULL, NULL, NULL);
+    long gap = (long)mitems - (long)nitems;
+    if (gap == d || (gap < d && collected)) break;
+    long before = g_collections_seen;
+    do_burst(1);
+    size_t n2 = 0, m2 = 0;
+    Cello_Verif_GC_Info(current(GC), NULL, &n2, &m2, NULL, NULL, NULL, NULL);
+    if (g_collections_seen != before || (long)m2 - (long)n2 > gap) collected = 1;
+  }
+  stat_add("gc.primed_ops", 1);
+#else
+  (void)d;
+#endif
+}
+
 static void do_burst(int n) {
 #ifndef CELLO_NGC
   for (int i = 0; i < n; i++) { var j = new(Int, $I(i)); new_obj(j, HK_JUNK, g_stopped ? CL_UNREG : CL_MANAGED); if (g_stopped) { O[g_nobj-1].alive = 0; } }
@@ -577,10 +636,14 @@ static void op_copy(const Op* op) {
   if (o->kind == HK_BOX || o->kind == HK_JUNK || o->kind >= HK_RANGE) return;   /* copying a Box would give one object two owners; copy of a heap Range assigns into a NULL value */
   if (!obj_traversed(o)) return;   /* fields of raw / unregistered objects may dangle (the collector never saw them) */
   if ((o->kind == HK_TBLK || o->kind == HK_TREK)) return;
+  g_deep_copy = (o->kind == HK_NODE && (op->a[1] / 7) % 2 == 1);
   var c = copy(o->ptr);
+  o = &O[src];
   int kind = o->kind;
   int oid = new_obj(c, kind, CL_MANAGED);
-  if (kind == HK_NODE) { ((struct Node*)c)->oid = oid; for (int k = 0; k < 3; k++) O[oid].e[k] = o->e[k]; }
+  int was_deep = g_deep_copy; g_deep_copy = 0;
+  if (was_deep) stat_add("heap.deep_copy", 1);
+  if (kind == HK_NODE) { ((struct Node*)c)->oid = oid; for (int k = 0; k < 3; k++) O[oid].e[k] = g_deep_kid[k] >= 0 ? g_deep_kid[k] : o->e[k]; }
   else if (kind == HK_REF) O[oid].e[0] = o->e[0];
   else if (O[oid].cidx >= 0) { CM[O[oid].cidx] = CM[o->cidx]; }
   slot_store(s, oid);
@@ -685,6 +748,7 @@ static void heap_execute(const Plan* p) {
     progress(i, prop, OPS[op->code].name);
     ev("op %d %s", i, OPS[op->code].name);
     compute_reach();
+    if (op->fault >= 2) { progress(i, prop, "prime"); gc_prime(op->fault - 2); compute_reach(); progress(i, prop, OPS[op->code].name); }
     switch (op->code) {
       case H_NEWNODE: op_newnode(op); break;
       case H_NEWREF: op_newref(op); break;
@@ -806,6 +870,7 @@ static void heap_generate_random(Plan* p, Rng* r, int maxops) {
   for (int i = 0; i < nops && p->nops < MAXOPS - 4; i++) {
     uint32_t d = rng_below(r, 100);
     int fault = rng_chance(r, 1, 10);
+    if (!fault && rng_chance(r, 1, 8)) fault = 2 + (int)rng_below(r, 6);   /* the next collection lands on this operation's n-th allocation */
     int64_t a = rng_below(r, 1000), b = rng_below(r, 1000), c = rng_below(r, 1000);
     if ((int)d < badpct) { plan_add(p, H_BADFREE, 0, 0, rng_below(r, 12), a, 0, 0, 0, 0); continue; }
     d = rng_below(r, 100);
@@ -820,9 +885,9 @@ static void heap_generate_random(Plan* p, Rng* r, int maxops) {
     else if (d < 81) plan_add(p, H_TLSSET, 0, fault, a, b, 0, 0, 0, 0);
     else if (d < 83) plan_add(p, H_TLSREM, 0, fault, a, 0, 0, 0, 0, 0);
     else if (d < (uint32_t)(focus == 6 || focus == 17 ? 91 : 87)) plan_add(p, H_DEL, 0, fault, a, 0, 0, 0, 0, 0);
-    else if (d < 94) plan_add(p, H_BURST, 0, 0, a, 0, 0, 0, 0, 0);
-    else if (d < 96) { if (allow_stop) { plan_add(p, stopped ? H_START : H_STOP, 0, 0, 0, 0, 0, 0, 0, 0); stopped = !stopped; } else plan_add(p, H_BURST, 0, 0, a, 0, 0, 0, 0, 0); }
-    else if (d < 97) plan_add(p, H_COPY, 0, fault, a, b, 0, 0, 0, 0);
+    else if (d < 93) plan_add(p, H_BURST, 0, 0, a, 0, 0, 0, 0, 0);
+    else if (d < 95) { if (allow_stop) { plan_add(p, stopped ? H_START : H_STOP, 0, 0, 0, 0, 0, 0, 0, 0); stopped = !stopped; } else plan_add(p, H_BURST, 0, 0, a, 0, 0, 0, 0, 0); }
+    else if (d < 97) plan_add(p, H_COPY, 0, fault ? fault : (rng_chance(r, 1, 2) ? 2 + (int)rng_below(r, 6) : 0), a, b, 0, 0, 0, 0);
     else if (d < 98) plan_add(p, (focus == 6 || focus == 5) ? H_BADNEW : H_REGHOLD, 0, 0, a, 0, 0, 0, 0, 0);
     else { int64_t n = rng_chance(r, 1, 4) ? 1000 + rng_below(r, 9000) : 5 + rng_below(r, 300); if (focus == 17 || maxops) n = 5 + rng_below(r, 200); plan_add(p, H_CHAIN, 0, 0, a, n, 0, 0, 0, 0); }
   }
